@@ -4,3 +4,4 @@ import Audit.C09
 import Audit.C19
 import Audit.C01
 import Audit.C12
+import Audit.C02
